@@ -13,6 +13,7 @@ def main():
     M = importlib.import_module(sys.argv[1])
     seed = int(sys.argv[2]) if len(sys.argv) > 2 else 0
     tier = sys.argv[3] if len(sys.argv) > 3 else "quick"
+    crosschecks_left = [60]          # at most this many executor/CPython cross-checks per run
     for c in M.CONTRACTS:
         cases = list(c.witness)
         sampler = c.options.get("samples")
@@ -35,11 +36,26 @@ def main():
             except Exception as e:
                 rec = {"target": c.target, "label": c.short, "index": k, "verdict": "error", "res": traceback.format_exc()[-1500:]}
             print("WITNESS " + json.dumps(rec, default=str), flush=True)
-            if rec.get("verdict") == "holds" and k < len(c.witness) + 4:
+            if rec.get("verdict") == "holds" and k < len(c.witness) + 2 and crosschecks_left[0] > 0:
+                crosschecks_left[0] -= 1
+                import signal
+
+                class _TimeUp(Exception):
+                    pass
+
+                def _alarm(signum, frame):
+                    raise _TimeUp()
                 try:
                     from .crosscheck import crosscheck
                     pid = sys.argv[1].split(".")[-1]
-                    cv, detail = crosscheck(pid, c, inst, kwargs)
+                    signal.signal(signal.SIGALRM, _alarm)
+                    signal.alarm(15)                      # the executor unrolls concrete loops: bounded effort per witness
+                    try:
+                        cv, detail = crosscheck(pid, c, inst, kwargs)
+                    finally:
+                        signal.alarm(0)
+                except _TimeUp:
+                    cv, detail = "skipped", "time limit (15 s)"
                 except Exception as e:
                     cv, detail = "skipped", f"{type(e).__name__}: {e}"[:200]
                 print("CROSSCHECK " + json.dumps({"target": c.target, "label": c.short, "index": k, "verdict": cv, "detail": detail}, default=str), flush=True)
